@@ -24,6 +24,12 @@ Layers (DESIGN.md section 3 / 5-C11):
      the salt in use, so the replacements it produces must be those of
      AsNumberAnonymizer(list, S) and of FileAnonymizer(salt=S, ...), in this
      process and in fresh ones.
+  6. with the address stage: FileAnonymizer(as_numbers=..., anon_ip=True) and
+     (..., undo_ip_anon=True) over BGP-style lines with a listed number next to
+     a rewritten address, a mask, an IPv6 address; address tokens of input and
+     output are projected to one placeholder code (asdrive.codes_projected), the
+     rest of the line is judged by the same R clauses against the map learned
+     from the AS-only FileAnonymizer with the same salt.
 Every recorded call is an event judged by TLC against the R part of
 spec/AsNum.tla via spec/AsNumTrace.tla; nothing is decided in Python.
 """
@@ -76,7 +82,7 @@ SALTS = [("empty", ""), ("ascii", "TESTSALT"), ("non-ascii+spaces", "é中 salt 
 
 
 def decode(cs):
-    return "".join(chr(c + 48) if c < 10 else chr(c - 2000000) if c >= 2000000 else chr(c - 100) for c in cs)
+    return "".join(chr(c + 48) if c < 10 else chr(c - 2000000) if c >= 2000000 else "<ADDR>" if c == D.ADDR else chr(c - 100) for c in cs)
 
 
 # --------------------------------------------------------------------------
@@ -111,7 +117,9 @@ class T:
         self._op(["anon", inst, list(ns), bool(learn)], labels or ["n=" + nlabel(n) for n in ns])
 
     def line(self, inst, text, label):
+        """returns the operation's index within its segment (for {"out": k} references)"""
         self._op(["line", inst, text], label)
+        return len(self.segments[-1][1]) - 1
 
     def nops(self):
         return sum(len(s[1]) for s in self.segments)
@@ -562,6 +570,73 @@ def gen_nosalt(r, thorough):
     return traces
 
 
+IP_FORMS = [
+    ("rewritten-v4 neighbor", "neighbor {a} remote-as {n}\n"),
+    ("rewritten-v4 indented", " neighbor {b} remote-as {n}\n"),
+    ("rewritten-v4 number-first", "{n} {a}\n"),
+    ("rewritten-v4 two-numbers", "peer {b} {n} {m}\n"),
+    ("rewritten-v4 prefix-and-nexthop", "ip route {c}/24 {a} tag {n}\n"),
+    ("rewritten-v4 junos", "    neighbor {a}; peer-as {n};\n"),
+    ("rewritten-v4 no-eol", "neighbor {a} remote-as {n}"),
+    ("rewritten-v4 plus mask", "network {c} mask 255.255.255.0 as {n}\n"),
+    ("mask-only", "mask 255.255.0.0 as {n}\n"),
+    ("wildcard-only", "wildcard 0.0.0.255 as {n}\n"),
+    ("ipv6 neighbor", "neighbor 2001:db8::1 remote-as {n}\n"),
+    ("ipv6 link-local", " neighbor fe80::1234:5678 remote-as {n} vrf x\n"),
+    ("ipv6 number-first with length", "{n} 2001:db8:1:2:3:4:5:6/64\n"),
+    ("v4 and ipv6", "neighbor {a} 2001:db8::2 remote-as {n} {m}\n"),
+    ("no-address control", "router bgp {n}\n"),
+]
+
+
+def gen_with_ip(r, thorough):
+    """AS numbers together with the address stage (anon_ip=True) or address undo (undo_ip_anon=True).
+    Listed numbers have 5+ digits, so none can be part of an address; address tokens are projected to
+    a placeholder on both sides (asdrive.codes_projected) and R judges the rest of every line against
+    the map learned from the AS-only FileAnonymizer of the same salt."""
+    traces = []
+    lists = [("5+digit block-end-points", ["64511", "64512", "65535", "65536", "4199999999", "4200000000"]),
+             ("5+digit prefix-chain", ["64999", "649991", "6499912"])]
+    if thorough:
+        lists.append(("5+digit single-b3", [str(r.randrange(4200000000, 4294967296))]))
+    salts = SALTS[1:3] if not thorough else SALTS[:5]
+    wheres = ["here"] + ([("child", "0")] if thorough else [])
+    for shape, lst in lists:
+        for slabel, salt in salts:
+            for where in wheres:
+                proc = "this process" if where == "here" else "fresh process hashseed=%s" % where[1]
+                lab = "list=%s salt=%s %s" % (shape, slabel, proc)
+                addr = lambda: "%d.%d.%d.%d" % (r.choice([10, 11, 100, 172, 192, 203]), r.randrange(1, 255), r.randrange(1, 255), r.randrange(1, 255))
+                cases = []
+                for k, (fname, tpl) in enumerate(IP_FORMS):
+                    n = lst[k % len(lst)]
+                    cases.append((fname, tpl.format(n=n, m=lst[(k + 1) % len(lst)], a=addr(), b=addr(), c=addr().rsplit(".", 1)[0] + ".0")))
+                # one trace per api variant (a rejection skips the rest of its trace)
+                for variant in ("as_numbers+anon_ip", "as_numbers+undo_ip_anon", "as_numbers+undo_ip_anon on already-anonymized text"):
+                    t = T("with-ip-stage", shape=shape, salt_class=slabel, process=proc, variant=variant)
+                    t.seg(where)
+                    t.new(1, "file", salt, lst, "AS-only FileAnonymizer (teaches the map) " + lab)
+                    for n in lst:
+                        t.line(1, n + "\n", "form=alone n=%s AS-only FileAnonymizer %s api=file" % (nlabel(n), lab))
+                    if variant == "as_numbers+anon_ip":
+                        t.new(2, "fileip", salt, lst, "FileAnonymizer(as_numbers, anon_ip=True) " + lab)
+                        for fname, text in cases:
+                            t.line(2, text, "form=%s api=%s %s" % (fname, variant, lab))
+                    elif variant == "as_numbers+undo_ip_anon":
+                        t.new(3, "fileundo", salt, lst, "FileAnonymizer(as_numbers, undo_ip_anon=True) " + lab)
+                        for fname, text in cases:
+                            t.line(3, text, "form=%s api=%s %s" % (fname, variant, lab))
+                    else:
+                        # undo on text whose addresses really were anonymized before (address-only run, same salt)
+                        t.new(4, "iponly", salt, [], "FileAnonymizer(anon_ip=True) without AS numbers " + lab)
+                        refs = [(fname, t.line(4, text, "form=%s api=anon_ip-only %s" % (fname, lab))) for fname, text in cases]
+                        t.new(5, "fileundo", salt, lst, "FileAnonymizer(as_numbers, undo_ip_anon=True) on already-anonymized text " + lab)
+                        for fname, k in refs:
+                            t.line(5, {"out": k}, "form=%s api=%s %s" % (fname, variant, lab))
+                    traces.append(t)
+    return traces
+
+
 def gen_special(r, thorough):
     traces = []
     for kind in ("class", "file"):
@@ -631,6 +706,15 @@ def gen_oracle():
     mk("block-edge-low", (2, "BlockNotKept@1"), new(1, ["64512"]), anon(1, [("64512", "64511")]))
     mk("block-edge-high", (2, "BlockNotKept@1"), new(1, ["4199999999"]), anon(1, [("4199999999", "4200000000")]))
     mk("unknown-instance", (1, "Exception"), anon(7, [("1", "1")]))
+    A = [D.ADDR]
+    raw = lambda a, b: {"ev": "line", "inst": 1, "in": a, "out": b, "outcome": "ok"}
+    mk("address-placeholder-ok", None, new(1, ["64999"]), anon(1, [("64999", "65000")]),
+       raw(D.codes("neighbor ") + A + D.codes(" remote-as 64999\n"), D.codes("neighbor ") + A + D.codes(" remote-as 65000\n")),
+       raw(D.codes_projected("neighbor 10.2.3.4 2001:db8::1/64 remote-as 64999;\n"), D.codes_projected("neighbor 77.1.2.3 2a01:1::/64 remote-as 65000;\n")))
+    mk("address-placeholder-number-kept", (3, "ListedNumberNotReplaced"), new(1, ["64999"]), anon(1, [("64999", "65000")]),
+       raw(D.codes_projected("neighbor 10.2.3.4 remote-as 64999\n"), D.codes_projected("neighbor 77.1.2.3 remote-as 64999\n")))
+    mk("address-placeholder-lost", (3, "OtherTextChanged"), new(1, ["64999"]), anon(1, [("64999", "65000")]),
+       raw(D.codes_projected("neighbor 10.2.3.4 remote-as 64999\n"), D.codes_projected("neighbor x remote-as 65000\n")))
     return traces
 
 
@@ -656,7 +740,9 @@ def describe(t, k, clause):
             what = "line %r raised %s" % (decode(e["in"]), e.get("what", e["outcome"]))
             label += " exception=%s" % e["outcome"].split(":")[-1]
         else:
-            what = "line %r became %r" % (decode(e["in"]), decode(e["out"]))
+            what = "line %r became %r" % (e.get("raw_in", decode(e["in"])), e.get("raw_out", decode(e["out"])))
+            if "raw_in" in e:
+                what += " (judged with address tokens projected: %r -> %r)" % (decode(e["in"]), decode(e["out"]))
     elif e["ev"] == "new":
         what = "constructor refused list %s: %s" % ([decode(n) for n in e["list"]][:10], e["outcome"])
         label += " exception=%s" % e["outcome"].split(":")[-1]
@@ -768,6 +854,7 @@ def build_traces(pid, tier):
     traces += gen_functional(rng(pid, "functional"), thorough)
     traces += gen_lines(rng(pid, "lines"), thorough)
     traces += gen_nosalt(rng(pid, "nosalt"), thorough)
+    traces += gen_with_ip(rng(pid, "with-ip"), thorough)
     traces += gen_special(rng(pid, "special"), thorough)
     traces += gen_bulk(rng(pid, "bulk"), thorough)
     return traces
@@ -781,6 +868,8 @@ def run(pid, tier):
         "constructor signatures AsNumberAnonymizer(list of decimal strings, salt) and FileAnonymizer(anon_pwd, anon_ip, salt=, as_numbers=) keep their meaning",
         "when no salt is supplied, the salt FileAnonymizer reports (public attribute .salt, else the string argument / quoted token of its WARNING record) "
         "is the salt in use; for that family the direct AsNumberAnonymizer(list, S) shares FileAnonymizer's salt name space",
+        "runs with the address stage on: address tokens (white-space delimited, optional '/len' and trailing ',' ';', accepted by ipaddress.ip_address) of input and output "
+        "are projected to one placeholder code before TLC judges the line; listed numbers there have 5+ digits so they cannot be part of an address",
         "TLC/SANY and the text -> character-code projection are trusted; the md5 seam and the md5(salt+number) prediction only steer coverage (drift, never verdicts)",
         "don't-care (accepted either way, not generated): spellings with leading zeros, digit '.' digit (AS-dot), non-ASCII numeric characters, "
         "list entries that are not canonical decimals in 0..4294967295, anonymize(n) for an unlisted n, an empty list refused with ValueError at construction; "
